@@ -2,7 +2,7 @@
 import math
 from fractions import Fraction
 
-from core import hx, exc_kind, safe_check
+from core import hx, exc_kind, safe_check, nats
 from cliutil import run_cli
 from worlds import GenomeWorld
 
@@ -97,6 +97,26 @@ def check(ctx, case):
 		from gambit.cluster import linkage_to_bio_tree
 		n = case['n']
 		link = np.array([[a, b, h, 0] for a, b, h in case['link']], dtype=float)
+		S = 2 ** 20
+		linktok = ';'.join(f'{a},{b},{int(Fraction(float(h)) * S)}' for a, b, h in case['link']) if case['link'] else '_'
+		extra = []
+		# the definition generated from the current source, on the caller's labels (distinct numbers, not the positions)
+		labs = case.get('labels')
+		if labs:
+			try:
+				t2 = linkage_to_bio_tree(link, [str(x) for x in labs])
+
+				def show(c):
+					bl = '~' if c.branch_length is None else str(int(Fraction(float(c.branch_length)) * S))
+					if not c.clades:
+						return f'{"~" if c.name is None else c.name}:{bl}'
+					return '(' + ','.join(show(ch) for ch in c.clades) + '):' + bl
+				real2 = show(t2.root)
+			except Exception as e:
+				real2 = '!' + exc_kind(e)
+			extra.append(f'pyg.linkage {linktok} {nats(labs)} {real2}')
+			if len(labs) != n:
+				return extra, []
 		tree = linkage_to_bio_tree(link, [str(i) for i in range(n)])
 		depths = []
 
@@ -107,10 +127,8 @@ def check(ctx, case):
 				walk(ch, d + Fraction(float(ch.branch_length)))
 		walk(tree.root, Fraction(0))
 		# model depths are "distance from root down", same orientation
-		S = 2 ** 20
 		real = ','.join(f'{l}:{int(d * S)}' for l, d in depths)
-		linktok = ';'.join(f'{a},{b},{int(Fraction(float(h)) * S)}' for a, b, h in case['link']) if case['link'] else '_'
-		return [f'c17.convert {n} {linktok} {real}'], []
+		return [f'c17.convert {n} {linktok} {real}'] + extra, []
 	if case['kind'] == 'hclust':
 		# gambit.cluster.hclust (SciPy behind it) vs the exact UPGMA model: SciPy's merges replayed, heights exact
 		from gambit.cluster import hclust
@@ -206,7 +224,7 @@ def run(ctx):
 		n = len(w.genomes)
 		# conversion on random valid linkage matrices (heights non-decreasing, dyadic)
 		for j in range(ctx.q(200, 3000)):
-			m = rng.randint(2, 8)
+			m = rng.randint(2, 8) if j % 25 else 1
 			live = list(range(m))
 			link = []
 			h = 0.0
@@ -215,7 +233,10 @@ def run(ctx):
 				h += rng.choice([0.0, 0.125, 0.25, 0.0625])
 				link.append([min(a, b), max(a, b), h])
 				live.remove(a); live.remove(b); live.append(m + r)
-			sub({'kind': 'convert', 'n': m, 'link': link}, 'convert')
+			labs = rng.sample(range(100), m)
+			if j % 40 == 7:
+				labs = labs + [100] if rng.random() < 0.5 else labs[:-1]      # wrong number of labels: rejected
+			sub({'kind': 'convert', 'n': m, 'link': link, 'labels': labs}, 'convert')
 		# hclust on synthetic symmetric matrices: wide random values (tie-free: the merge order is unique and must be the
 		# model's), small ranges / zeros / block structure (ties: every merge must still be a minimal pair)
 		for j in range(ctx.q(300, 4000)):
